@@ -480,6 +480,11 @@ func (st *state) judgeXRToClaim(ck types.NamespacedName, e *simapi.LogEntry) {
 		for _, x := range xrTypes {
 			ok = ok || x == typ
 		}
+		// only what this write put there: a condition the claim carried already
+		// (published earlier, when the XR still listed it) is not a copy made now
+		if b := cond(e.Before, typ); b != nil && b["status"] == cm["status"] && b["reason"] == cm["reason"] && b["message"] == cm["message"] {
+			ok = true
+		}
 		if !ok {
 			w.S.Violate("C07/xr-condition-copied-to-claim", fmt.Sprintf("claim %s carries condition %s, which its XR does not publish to the claim", ck, typ))
 		}
@@ -530,4 +535,17 @@ func merged(dst, src any) any {
 		out[k] = merged(out[k], v)
 	}
 	return out
+}
+
+func cond(obj map[string]any, typ string) map[string]any {
+	if obj == nil {
+		return nil
+	}
+	conds, _, _ := unstructured.NestedSlice(obj, "status", "conditions")
+	for _, c := range conds {
+		if m, _ := c.(map[string]any); m != nil && m["type"] == typ {
+			return m
+		}
+	}
+	return nil
 }
